@@ -66,6 +66,7 @@ def flags(ops, case):
         frame_methodop_then=any(o["op"] == "frame_bin" and o.get("method") and o["fn"] not in D.CMP for o in head),
         frame_cmpmethod_then=any(o["op"] == "frame_bin" and o.get("method") and o["fn"] in D.CMP for o in head),
         frame_frame_then=any(o["op"] == "frame_frame" for o in head),
+        fmap_then=any(o["op"] == "fmap" for o in head),
         fillna_dict_then=any(o["op"] == "fillna" and isinstance(o["value"], dict) for o in head),
         assign_twice=len(set(assigned)) < len(assigned),
         assign_other_then=any(o["op"] == "assign" and D.uses(o, "other") for o in head),
@@ -73,9 +74,15 @@ def flags(ops, case):
         # empty partition (one was empty from the start, or a filter ran before)
         assign_foreign_maybe_empty=any(case.has_empty or any(o["op"] == "filter" for o in ops[:i]) for i in foreign),
         cmp_method_other=any(
-            o["op"] == "frame_bin" and o.get("method") and o["fn"] in D.CMP and o["other"].get("e") == "other" for o in ops
+            o["op"] == "frame_bin" and o.get("method") and o["fn"] in D.CMP and (D.uses(o["other"], "other") or D.uses(o["other"], "root"))
+            for o in ops
         ),
     )
+
+
+def same_nparts(case, envd):
+    """Both operands of an alignment have UNKNOWN divisions and the same number of partitions."""
+    return (not case.known_div) and any(n == case.nparts and not known for n, known in envd.others)
 
 
 def check(spec):
@@ -107,6 +114,7 @@ def check(spec):
                 res = D.run_pipeline(case.ddf, ops, envd)
                 got = F.compute(res)
         except Violation as v:
+            v.sig["unknown_div_same_nparts"] = same_nparts(case, envd)
             cause = v.__cause__
             if isinstance(cause, NotImplementedError):
                 count("dask-notimplemented")
@@ -116,7 +124,9 @@ def check(spec):
                 count("unknown-div-align-raised")
                 return
             raise
-    D.compare(got, want, res._meta, what=f"{sig['ops']}", check_order=not loose, sig=sig)
+    sig["unknown_div_same_nparts"] = same_nparts(case, envd)
+    maybe_empty = case.has_empty or len(case.pdf) == 0 or any(o["op"] == "filter" for o in ops)
+    D.compare(got, want, res._meta, what=f"{sig['ops']}", check_order=not loose, sig=sig, maybe_empty=maybe_empty, cat_free="cat.as_known" in feats)
 
 
 def nontrivial(spec):
